@@ -209,7 +209,7 @@ def run(ctx):
     ctx.parts['programs'] = {'executed': len(cases), 'returned': sum(1 for c in cases if c['status'] == 'ok'), 'raised': sum(1 for c in cases if c['status'] == 'raise')}
     ctx.sample({'kind': 'program', **{k: cases[7][k] for k in ('entry', 'rep', 'cond', 'status')}, 'objects': cases[7]['objects'][:6]})
     # binding self-test
-    bad = [json.loads(json.dumps(c)) for c in cases[:4]]
+    bad = [core.jcopy(c) for c in cases[:4]]
     for k, c in enumerate(bad):
         c['id'] = 10**9 + k; c['objects'][0]['post'] += 1000
     vb = core.validate_batch(ctx, 'Alias', bad, 'SelfTest:Alias', shards=1)
